@@ -60,10 +60,21 @@ EqOK(os, ob, rd) ==
           [] ob.kind = "HeaderSet" /\ ot.kind = "HeaderSet" -> eq <=> HsLowSet(ob.st) = HsLowSet(ot.st)
           [] OTHER -> TRUE
 
+\* the bare laws of == and hash on any two live objects, whatever == means for them (what counts
+\* as equal is what the real == returned):  r = ints <<x == y, y == x, hash relation, y in {x},
+\* {x: 1}.get(y) == 1>> (2 = not applicable: unhashable).  == is symmetric, and equal objects have
+\* the same hash, i.e. they are one set member / one dict key.
+LawOK(rd) == /\ rd.r.tag = "ints" /\ Len(rd.r.v) = 5
+             /\ rd.r.v[1] = rd.r.v[2]
+             /\ (rd.r.v[1] = 1 => rd.r.v[3] # 0 /\ rd.r.v[4] # 0 /\ rd.r.v[5] # 0)
+
+OpaqueKinds == {"ImmutableDict", "ImmutableTypeConversionDict", "ImmutableOrderedMultiDict"}
+
 ReadOK(os, rd) ==
   IF rd.o \notin 1..Len(os) THEN FALSE
   ELSE LET ob == os[rd.o]  a == RdArg(rd) IN
-       IF rd.n = "eq" THEN EqOK(os, ob, rd)
+       IF rd.n = "eqlaw" THEN LawOK(rd)
+       ELSE IF rd.n = "eq" THEN EqOK(os, ob, rd)
        ELSE CASE ob.kind \in MdFam ->
                    \/ RetEq(rd.r, MdRead(ob.st, rd.n, a))
                    \/ (HasEmpty(ob.st) /\ RetEq(rd.r, MdRead(Purge(ob.st), rd.n, a)))
@@ -128,6 +139,9 @@ StepDerive(os, ln) ==
                                      IF how = "pickle" THEN DOf(os, ob) ELSE PurgeD(DOf(os, ob)), <<>>)),
                rets |-> IF ObjHasEmpty(os, ob) THEN <<RInts(<<1, 1>>), RInts(<<0, 1>>), RInts(<<0, 0>>)>> ELSE DerivedOK(1)]
     [] ob.kind \in {"Headers", "HeaderSet"} -> [os |-> Append(os, Obj(ob.kind, ob.st, <<>>)), rets |-> DerivedOK(2)]
+    [] ob.kind \in OpaqueKinds ->          \* no model: only "equal => same hash" is demanded of the derived object
+         IF how = "copy_copy" THEN [os |-> os, rets |-> <<RSelf>>]
+         ELSE [os |-> Append(os, Obj(ob.kind, <<>>, <<>>)), rets |-> <<RInts(<<1, 1>>), RInts(<<0, 1>>), RInts(<<0, 0>>)>>]
     [] OTHER -> [os |-> os, rets |-> <<RExc("?underivable")>>]
 
 Step(os, ln) ==
@@ -165,11 +179,11 @@ Next ==
                                   ELSE IF (\E q \in 1..Len(r.rets) : r.rets[q].tag = "exc" /\ r.rets[q].v = "TypeError") THEN "ImmutableRejects" ELSE "Return",
                               nm, IF ln.op = "new" THEN ln.kind ELSE knd, AnyEmpty(objs) \/ AnyEmpty(r.os))
                 ELSE IF bad # 0
-                  THEN Reject(ln, IF ln.s[bad].n = "eq" THEN "EqHashConsistent"
+                  THEN Reject(ln, IF ln.s[bad].n \in {"eq", "eqlaw"} THEN "EqHashConsistent"
                                   ELSE IF ln.s[bad].o # ln.o /\ ln.op = "call" /\ ~IsView(r.os, ln.s[bad].o) THEN "CopyIndependent"
                                   ELSE "ReadsAgree",
                               ln.s[bad].n,
-                              IF ln.s[bad].n = "eq" /\ KindOf(r.os, ln.s[bad].i) = "CombinedMultiDict" THEN "CombinedMultiDict"
+                              IF ln.s[bad].n \in {"eq", "eqlaw"} /\ KindOf(r.os, ln.s[bad].i) = "CombinedMultiDict" THEN "CombinedMultiDict"
                               ELSE KindOf(r.os, ln.s[bad].o), AnyEmpty(r.os))
                 ELSE IF ln.x.has /\ ln.x.st # r.os[ln.o].st
                   THEN PrintT(ToJson([drift |-> 1, t |-> ln.t, i |-> ln.i, what |-> "exported post state differs from judge model"]))
